@@ -46,6 +46,20 @@ class Lab:
                 out['files'].append(rel)
         return out
 
+    def tree_hash(self, dirname):
+        """{relative path: sha256} of regular files (symlinks by target) under <lab root>/<dirname>"""
+        import hashlib
+        d = self.root / dirname
+        out = {}
+        if not d.exists():
+            return out
+        for p in sorted(d.rglob('*')):
+            if p.is_symlink():
+                out[str(p.relative_to(d))] = 'link:' + os.readlink(p)
+            elif p.is_file():
+                out[str(p.relative_to(d))] = hashlib.sha256(p.read_bytes()).hexdigest()
+        return out
+
     def close(self):
         os.chdir('/')
         shutil.rmtree(self.root, ignore_errors=True)
